@@ -11,8 +11,18 @@ relational invariant R = E and H:
      MultiportXORMemory: for every row a, ideal[a] = XOR over write ports k of eff_k[a], where eff_k[a] is the pending
        (registered last cycle) XOR-coded write of port k if it targets a, else bank k's row a; every feedback read register
        equals the bank row it will be XORed with; the read-side two-stage bypass reconstructs each bank's row;
-     MultiportILVTMemory (both table encodings): verified modularly — the invalidation table is replaced by its proved
-       contract (an ideal memory of last-writer indices), see the per-configuration notes."""
+     MultiportXORILVTMemory / MultiportOneHotILVTMemory: a third machine is added to the product — a ghost live-value
+       table T (a real amaranth Memory of last-writer indices, written with the port index by every enabled write, read
+       non-transparently by every read port).  H = (inner table implementation ≡ T) ∧ (outer): for the XOR-coded inner
+       table the XOR invariant above with T as the ideal memory; for the one-hot-coded inner table, for every row a bank
+       T[a]'s effective code (pending feedback write included) is marked "newer than" every other bank's code
+       (pairwise: code_k[i] == ~code_i[k-1] for i < k), the feedback read registers hold the other banks' codes at the
+       pending write address, the second bypass stage is redundant, and the one-hot output names T's registered read
+       value; outer: bank T[a] holds ideal[a] for every row a, the bypass registers are last cycle's write, and the
+       registered bank data selected by the table output equals the ideal read register.
+     Write granularity on the ILVT memories is a recorded known finding (the live-value table is per row, not per granule):
+     those configurations are expected to fail and a trace from reset is attached.
+"""
 
 import itertools
 
